@@ -112,6 +112,13 @@ func dutydbQueriesRaw(t *testing.T, _ UKind, u core.UnsignedData) []dutydbQuery 
 func probeDutyDB(t *testing.T, k UKind) {
 	t.Helper()
 	duty := core.Duty{Slot: slot0, Type: k.Duty}
+	var pristine core.UnsignedDataSet // a private deep copy of the stored set, made before Store
+	dupStore := func(ctx context.Context, db *dutydb.MemDB) Reread {
+		p := pristine
+		return Reread{"Store(identical duplicate)", func() (any, error) {
+			return errStr(db.Store(ctx, duty, must(p.Clone()))), nil
+		}}
+	}
 	setup := func(t *testing.T) (context.Context, *dutydb.MemDB, core.UnsignedDataSet, []dutydbQuery, bool) {
 		ctx := t.Context()
 		u, err := k.New(t, slot0)
@@ -121,6 +128,7 @@ func probeDutyDB(t *testing.T, k UKind) {
 		}
 		db := dutydb.NewMemDB(newNopDeadliner())
 		set := core.UnsignedDataSet{testutil.RandomCorePubKey(t): u}
+		pristine = must(set.Clone())
 		if err := db.Store(ctx, duty, set); err != nil {
 			skip("dutydb %s: Store refuses the value: %v", k.Name, err)
 			return nil, nil, nil, nil, false
@@ -141,7 +149,7 @@ func probeDutyDB(t *testing.T, k UKind) {
 				return
 			}
 			observe("dutydb.Store>"+q.name, k.Name, "direct", Named{"Store input set", set},
-				[]Named{{q.name + " result", r1}}, []Reread{{q.name, func() (any, error) { return q.f(ctx, db) }}})
+				[]Named{{q.name + " result", r1}}, []Reread{{q.name, func() (any, error) { return q.f(ctx, db) }}, dupStore(ctx, db)})
 		}
 	})
 	// two answers of the same query; an answer and a later query; queries blocked before the store
@@ -158,7 +166,7 @@ func probeDutyDB(t *testing.T, k UKind) {
 		}
 		held := []Named{{q.name + " second result", r2}, {"Store input set", set}}
 		observe("dutydb."+q.name+"|"+q.name, k.Name, "sibling", Named{q.name + " first result", r1}, held,
-			[]Reread{{q.name, func() (any, error) { return q.f(ctx, db) }}})
+			[]Reread{{q.name, func() (any, error) { return q.f(ctx, db) }}, dupStore(ctx, db)})
 	})
 	bubble(t, "dutydb "+k.Name, func(t *testing.T) {
 		// both readers block first, then the value is stored (the resolve-on-store path)
@@ -184,6 +192,7 @@ func probeDutyDB(t *testing.T, k UKind) {
 		}
 		synctest.Wait()
 		set := core.UnsignedDataSet{testutil.RandomCorePubKey(t): u}
+		pristine = must(set.Clone())
 		if err := db.Store(ctx, duty, set); err != nil {
 			db.Shutdown()
 			synctest.Wait()
@@ -197,7 +206,11 @@ func probeDutyDB(t *testing.T, k UKind) {
 		}
 		observe("dutydb."+q.name+"(blocked)|"+q.name+"(blocked)", k.Name, "sibling", Named{q.name + " reader 1 result", a.v},
 			[]Named{{q.name + " reader 2 result", b.v}, {"Store input set", set}},
-			[]Reread{{q.name, func() (any, error) { return q.f(ctx, db) }}})
+			[]Reread{{q.name, func() (any, error) { return q.f(ctx, db) }}, dupStore(ctx, db)})
+		// the reader that was resolved last (second registered query)
+		observe("dutydb."+q.name+"(blocked, second reader)|"+q.name+"(blocked)", k.Name, "sibling", Named{q.name + " reader 2 result", b.v},
+			[]Named{{"Store input set", set}},
+			[]Reread{{q.name, func() (any, error) { return q.f(ctx, db) }}, dupStore(ctx, db)})
 	})
 	if len(mustQueries(t, k)) > 1 {
 		bubble(t, "dutydb "+k.Name, func(t *testing.T) {
@@ -212,7 +225,7 @@ func probeDutyDB(t *testing.T, k UKind) {
 			}
 			observe("dutydb."+qs[0].name+"|"+qs[1].name, k.Name, "sibling", Named{qs[0].name + " result", r1},
 				[]Named{{qs[1].name + " result", r2}},
-				[]Reread{{qs[1].name, func() (any, error) { return qs[1].f(ctx, db) }}})
+				[]Reread{{qs[1].name, func() (any, error) { return qs[1].f(ctx, db) }}, dupStore(ctx, db)})
 		})
 	}
 	if k.Duty == core.DutyAttester {
@@ -487,11 +500,17 @@ func probeAggSigDB(t *testing.T, k SKind, v2 bool) {
 	}
 	duty := core.Duty{Slot: slot0, Type: k.Duty}
 	type rig struct {
-		db     core.AggSigDB
-		set    core.SignedDataSet
-		pk     core.PubKey
-		sub    core.SubcommitteeIndex
-		cancel context.CancelFunc
+		db       core.AggSigDB
+		set      core.SignedDataSet
+		pk       core.PubKey
+		sub      core.SubcommitteeIndex
+		cancel   context.CancelFunc
+		pristine core.SignedDataSet
+	}
+	dupStore := func(t *testing.T, r *rig) Reread {
+		return Reread{"Store(identical duplicate)", func() (any, error) {
+			return errStr(r.db.Store(t.Context(), duty, must(r.pristine.Clone()))), nil
+		}}
 	}
 	setup := func(t *testing.T, storeFirst bool) (*rig, bool) {
 		sd, err := k.New(t, slot0)
@@ -511,6 +530,7 @@ func probeAggSigDB(t *testing.T, k SKind, v2 bool) {
 			r.db = db
 		}
 		r.set = core.SignedDataSet{r.pk: sd}
+		r.pristine = must(r.set.Clone())
 		r.sub, err = core.SyncSubcommitteeIndex(k.Duty, sd)
 		if err != nil {
 			skip("%s %s: %v", name, k.Name, err)
@@ -549,7 +569,7 @@ func probeAggSigDB(t *testing.T, k SKind, v2 bool) {
 			skip("%s %s: Await fails: %v", name, k.Name, err)
 			return
 		}
-		observe(name+".Store>Await", k.Name, "direct", Named{"Store input set", r.set}, []Named{{"Await result", r1}}, []Reread{{"Await", q}})
+		observe(name+".Store>Await", k.Name, "direct", Named{"Store input set", r.set}, []Named{{"Await result", r1}}, []Reread{{"Await", q}, dupStore(t, r)})
 	})
 	bubble(t, name+" "+k.Name, func(t *testing.T) {
 		r, ok := setup(t, true)
@@ -566,7 +586,7 @@ func probeAggSigDB(t *testing.T, k SKind, v2 bool) {
 			return
 		}
 		observe(name+".Await|Await", k.Name, "sibling", Named{"Await first result", r1},
-			[]Named{{"Await second result", r2}, {"Store input set", r.set}}, []Reread{{"Await", q}})
+			[]Named{{"Await second result", r2}, {"Store input set", r.set}}, []Reread{{"Await", q}, dupStore(t, r)})
 	})
 	bubble(t, name+" "+k.Name, func(t *testing.T) {
 		r, ok := setup(t, false)
@@ -607,7 +627,9 @@ func probeAggSigDB(t *testing.T, k SKind, v2 bool) {
 			return bounded(t.Context(), func(ctx context.Context) (core.SignedData, error) { return r.db.Await(ctx, duty, r.pk, r.sub) })
 		}
 		observe(name+".Await(blocked)|Await(blocked)", k.Name, "sibling", Named{"Await reader 1 result", got[0].v},
-			[]Named{{"Await reader 2 result", got[1].v}, {"Store input set", r.set}}, []Reread{{"Await", q}})
+			[]Named{{"Await reader 2 result", got[1].v}, {"Store input set", r.set}}, []Reread{{"Await", q}, dupStore(t, r)})
+		observe(name+".Await(blocked, second reader)|Await(blocked)", k.Name, "sibling", Named{"Await reader 2 result", got[1].v},
+			[]Named{{"Store input set", r.set}}, []Reread{{"Await", q}, dupStore(t, r)})
 	})
 }
 
@@ -619,7 +641,7 @@ func probeSigAgg(t *testing.T, k SKind, sh shares) {
 	duty := core.Duty{Slot: slot0, Type: k.Duty}
 	type rig struct {
 		in   map[core.PubKey][]core.ParSignedData
-		outs [2]core.SignedDataSet
+		outs []core.SignedDataSet
 	}
 	setup := func(t *testing.T) (*rig, bool) {
 		ps, err := partials(t, k, sh, threshold)
@@ -628,8 +650,8 @@ func probeSigAgg(t *testing.T, k SKind, sh shares) {
 			return nil, false
 		}
 		agg := must(sigagg.New(threshold, func(context.Context, core.PubKey, core.SignedData) error { return nil }))
-		r := &rig{in: map[core.PubKey][]core.ParSignedData{sh.pubkey: ps}}
-		for i := 0; i < 2; i++ {
+		r := &rig{in: map[core.PubKey][]core.ParSignedData{sh.pubkey: ps}, outs: make([]core.SignedDataSet, rigSubs)}
+		for i := 0; i < rigSubs; i++ {
 			agg.Subscribe(func(_ context.Context, _ core.Duty, set core.SignedDataSet) error {
 				r.outs[i] = set
 				return nil
@@ -639,9 +661,11 @@ func probeSigAgg(t *testing.T, k SKind, sh shares) {
 			skip("sigagg %s: Aggregate fails: %v", k.Name, err)
 			return nil, false
 		}
-		if r.outs[0] == nil || r.outs[1] == nil {
-			skip("sigagg %s: subscribers not called", k.Name)
-			return nil, false
+		for i := range r.outs {
+			if r.outs[i] == nil {
+				skip("sigagg %s: subscriber %d of %d not called", k.Name, i+1, len(r.outs))
+				return nil, false
+			}
 		}
 
 		return r, true
@@ -662,6 +686,24 @@ func probeSigAgg(t *testing.T, k SKind, sh shares) {
 		observe("sigagg.subscriber|subscriber", k.Name, "sibling", Named{"subscriber 1 set", r.outs[0]},
 			[]Named{{"subscriber 2 set", r.outs[1]}, {"Aggregate input partials", r.in}}, nil)
 	})
+	for _, lay := range subLayouts {
+		n, pos := lay[0], lay[1]
+		bubble(t, "sigagg "+k.Name, func(t *testing.T) {
+			rigSubs = n
+			r, ok := setup(t)
+			rigSubs = 2
+			if !ok {
+				return
+			}
+			held := []Named{{"Aggregate input partials", r.in}}
+			for i := range r.outs {
+				if i != pos {
+					held = append(held, Named{fmt.Sprintf("subscriber %d set", i+1), r.outs[i]})
+				}
+			}
+			observe("sigagg.subscriber["+posName(n, pos)+"]|everybody else", k.Name, "sibling", Named{"subscriber set (" + posName(n, pos) + ")", r.outs[pos]}, held, nil)
+		})
+	}
 }
 
 var _ = eth2p0.Slot(0)
